@@ -20,6 +20,10 @@ import (
 //   chunking   `raw` (undecorated filesystems), `-`, or 1..6 sizes from {1,2,3,7,4096}
 //   faults     random single faults on the random lines; `faultBlock` enumerates EVERY call index of every
 //              stage (0 .. number of calls, the last one not firing) for a small tree, hard and short
+//   open reader + rewrite   rdq / scopyq: a reader (a StreamCopy) on a memfs-based backend {mem, encmem, cache, rcache}
+//              whose file is rewritten through Writer by another goroutine started after `split` reads; the rewrite
+//              is shorter than / as long as / longer than the old content; `queueBlock` enumerates EVERY split for
+//              a small file on all four backends
 // ---------------------------------------------------------------------------------------------
 
 type gen struct {
@@ -351,6 +355,132 @@ func (g *gen) lineWrq() {
 		g.chunksTok(4), g.chunksTok(4))
 }
 
+var qBackends = []string{"mem", "mem", "encmem", "cache", "rcache"}
+
+// oldForQ draws the content a reader is opened on: mostly a few bytes (so that the rewrite is shorter, of equal
+// length or longer than it), sometimes empty, sometimes one of the general contents.
+func (g *gen) oldForQ() []byte {
+	switch x := g.r.Intn(100); {
+	case x < 8:
+		return []byte{}
+	case x < 80:
+		return g.bytes(1 + g.r.Intn(24))
+	}
+	return g.content(false)
+}
+
+// chunksForQ draws the rewrite: 0..4 chunks; its total length is below, at or above len(old) (a rewrite that
+// fits into the old array and one that outgrows it).
+func (g *gen) chunksForQ(old []byte) string {
+	n := g.r.Intn(5)
+	if n == 0 {
+		return "_"
+	}
+	total := 0
+	switch g.r.Intn(4) {
+	case 0:
+		total = len(old) // equal length
+	case 1:
+		total = len(old) + 1 + g.r.Intn(12) // longer
+	default:
+		total = g.r.Intn(len(old) + 1) // shorter (fits)
+	}
+	items := make([]string, n)
+	for i := range items {
+		l := total / n
+		if i == n-1 {
+			l = total - (n-1)*(total/n)
+		}
+		if g.r.Chance(1, 12) {
+			l = 0
+		}
+		items[i] = hx.Enc(g.bytes(l))
+	}
+	return strings.Join(items, ",")
+}
+
+// lineRdq: a reader that stays open while the same file is rewritten through Writer.
+func (g *gen) lineRdq() {
+	old := g.oldForQ()
+	n := g.r.Intn(7)
+	sizes := make([]string, n)
+	for i := range sizes {
+		switch x := g.r.Intn(24); {
+		case x == 0:
+			sizes[i] = "0"
+		case x == 1:
+			sizes[i] = "40000"
+		default:
+			sizes[i] = fmt.Sprint(chunkPool[g.r.Intn(len(chunkPool))])
+		}
+	}
+	tok := "-"
+	if n > 0 {
+		tok = strings.Join(sizes, ",")
+	}
+	g.count["line:rdq"]++
+	g.emit("rdq %s %s %d %s %s", g.r.Pick(qBackends), hx.Enc(old), g.r.Intn(n+2), tok, g.chunksForQ(old))
+}
+
+// lineScopyq: StreamCopy whose source file is rewritten while the copy runs.
+func (g *gen) lineScopyq() {
+	old := g.oldForQ()
+	dstold := "absent"
+	switch g.r.Intn(4) {
+	case 0:
+		dstold = hx.Enc(g.bytes(len(old) + 1 + g.r.Intn(9)))
+	case 1:
+		dstold = hx.Enc(g.bytes(len(old) / 2))
+	}
+	tok := "-"
+	if n := g.r.Intn(5); n > 0 {
+		items := make([]string, n)
+		for i := range items {
+			items[i] = fmt.Sprint(chunkPool[g.r.Intn(len(chunkPool))])
+		}
+		tok = strings.Join(items, ",")
+	}
+	g.count["line:scopyq"]++
+	g.emit("scopyq %s %s %s %s %d %s %s", g.r.Pick(qBackends), g.backend(), hx.Enc(old), dstold, g.r.Intn(6), tok,
+		g.chunksForQ(old))
+}
+
+// queueBlock enumerates, for one small file, EVERY point at which the rewrite can be started (before the first
+// read … after the last, i.e. before Close) on every backend of the family, with a rewrite that fits into the
+// old array, one of equal length and one that outgrows it.
+func (g *gen) queueBlock() {
+	old := g.bytes(6 + g.r.Intn(5))
+	sz := []int{2, 3, 1, 7}
+	for i := len(sz) - 1; i > 0; i-- {
+		j := g.r.Intn(i + 1)
+		sz[i], sz[j] = sz[j], sz[i]
+	}
+	items := make([]string, len(sz))
+	for i, n := range sz {
+		items[i] = fmt.Sprint(n)
+	}
+	sizes := strings.Join(items, ",")
+	rewrites := []string{
+		hx.Enc(g.bytes(2)) + "," + hx.Enc(g.bytes(1+g.r.Intn(len(old)-3))),
+		hx.Enc(g.bytes(len(old)/2)) + "," + hx.Enc(g.bytes(len(old)-len(old)/2)),
+		hx.Enc(g.bytes(3)) + "," + hx.Enc(g.bytes(len(old))),
+	}
+	for _, be := range []string{"mem", "encmem", "cache", "rcache"} {
+		for split := 0; split <= len(sz)+1; split++ {
+			for _, rw := range rewrites {
+				g.emit("rdq %s %s %d %s %s", be, hx.Enc(old), split, sizes, rw)
+				g.count["queuepos"]++
+			}
+		}
+		db := g.backend()
+		for split := 0; split <= 4; split++ {
+			g.emit("scopyq %s %s %s %s %d %s %s", be, db, hx.Enc(old), "absent", split, sizes, rewrites[split%len(rewrites)])
+			g.count["queuepos"]++
+		}
+	}
+	g.count["queueblock"]++
+}
+
 func (g *gen) lineRd() {
 	data := g.content(g.r.Chance(1, 8))
 	n := g.r.Intn(9)
@@ -579,13 +709,17 @@ func genLines(w *bufio.Writer, stat *bufio.Writer, seed uint64, n, blocks int) {
 		switch x := g.r.Intn(100); {
 		case x < 12:
 			g.lineWr()
-		case x < 18:
+		case x < 17:
 			g.lineWrq()
-		case x < 28:
+		case x < 23:
+			g.lineRdq()
+		case x < 27:
+			g.lineScopyq()
+		case x < 35:
 			g.lineRd()
-		case x < 48:
+		case x < 53:
 			g.lineScopy()
-		case x < 76:
+		case x < 78:
 			g.lineTcopy()
 		default:
 			g.lineCopier()
@@ -593,6 +727,7 @@ func genLines(w *bufio.Writer, stat *bufio.Writer, seed uint64, n, blocks int) {
 	}
 	for i := 0; i < blocks; i++ {
 		g.faultBlock()
+		g.queueBlock()
 	}
 	if stat != nil {
 		keys := make([]string, 0, len(g.count))
